@@ -204,6 +204,7 @@ class Run:
             orig(conn, data)
         dev._v2_packet = v2_packet
         self.ac = self.rig.client()
+        self.observer = self.rig.client()       # a second client object of the same device: sees what the device stores
         self.pending = set()
         self.out = self.rig.run(self._drive(hist))
 
@@ -234,6 +235,7 @@ class Run:
         ac = self.ac
         await ac.get_capabilities()
         await ac.refresh()
+        await self.observer.get_capabilities()
         self.applied_since_set = {}
         for i, ev in enumerate(hist):
             kind = ev[0]
@@ -277,6 +279,9 @@ class Run:
                                 if val != expect[pid]:
                                     self.bad(f"property {pid:#06x} value encoding", f"sent {val.hex()} expected {expect[pid].hex()}")
                 self.pending.clear()
+                if not self.silent and kind == "apply":
+                    await self.observer.refresh()
+                    self._check_readback("observer refresh", who=self.observer)
             elif kind in ("refresh", "refresh-push", "refresh-extra"):
                 self.push = kind == "refresh-push"
                 if kind == "refresh-extra":
@@ -300,9 +305,9 @@ class Run:
             if n > 1:
                 self.bad("more than one breeze mode reported active", str(public(ac)))
 
-    def _check_readback(self, when):
+    def _check_readback(self, when, who=None):
         """After a refresh the attributes equal what the device stores (reference decode of the store)."""
-        ac, store = self.ac, self.model.props
+        ac, store = (who or self.ac), self.model.props
         b, r, ieco, angles = self.profile
         exp = {}
         if angles:
@@ -325,7 +330,8 @@ class Run:
             got = getattr(ac, k)
             got = int(got) if not isinstance(got, bool) else got
             if got != v:
-                self.bad(f"read-back of {k} differs from the device", f"device {v} exposed {got} store={ {hex(a): c.hex() for a, c in store.items()} }")
+                self.bad(f"read-back of {k} differs from the device" + (" (second client object)" if who is not None else ""),
+                         f"device {v} exposed {got} store={ {hex(a): c.hex() for a, c in store.items()} }")
 
     def fingerprint(self):
         store = tuple(sorted((k, v) for k, v in self.model.props.items()))
